@@ -480,6 +480,10 @@ class Runtime:
                 return obj.cls
             found, v = self.class_attr(interp, obj.cls, name)
             if found:
+                if isinstance(v, stdlib.CachedProperty):
+                    val = interp.call(v.fget, [obj], {})          # computed once, then an instance attribute
+                    obj.fields[name] = val
+                    return val
                 if isinstance(v, PropertyObj):
                     return interp.call(v.fget, [obj], {})
                 if isinstance(v, (Closure, Builtin)):
